@@ -1,0 +1,11 @@
+//go:build verif
+
+// Verification contracts (property C38, addition; comment-only, read by /verif/govc).
+// Closed world of session-table writers: a session is created only by handleLogin (whose clauses say when), removed
+// by handleLogout or by hasValidSession when it has expired (whose clauses say it never adds or extends one). No
+// other function of the package may write the table - e.g. to slide an expiry forward.
+
+package console
+
+//@ type authManager
+//@   writers sessions: handleLogin, handleLogout, hasValidSession
